@@ -84,7 +84,10 @@ class Overlay:
             elif kind == 'loop':
                 self.loops[(args[0], int(args[1]))] = text
             elif kind == 'ghost':
-                pat, rep = self._split3(buf)
+                if args[1] in ('loop-start', 'loop-end', 'fn-start'):
+                    pat, rep = '<%s>' % args[1], text
+                else:
+                    pat, rep = self._split3(buf)
                 nth = 0
                 for a in args[2:]:
                     if a.startswith('nth='):
@@ -477,6 +480,31 @@ def _decorate_fn(ov, key, text, log):
         if g['fn'] != key:
             continue
         check_ghost_only(g['text'], '%s ghost@%r' % (key, g['anchor'][:40]))
+        if g['where'] in ('loop-start', 'loop-end', 'fn-start'):
+            # structural anchor: `@@ghost f loop-end nth=k` — robust against edits of the statements themselves
+            mask = code_mask(text)
+            if g['where'] == 'fn-start':
+                m0 = re.search(r'\bfn\s+[A-Za-z_][A-Za-z0-9_]*', text)
+                j = m0.end()
+                pd = 0
+                while not (mask[j] and text[j] == '{' and pd == 0):
+                    if mask[j] and text[j] in '([':
+                        pd += 1
+                    elif mask[j] and text[j] in ')]':
+                        pd -= 1
+                    j += 1
+                text = text[:j + 1] + '\n' + g['text'] + '\n' + text[j + 1:]
+                continue
+            loops = loop_headers(text)
+            if g['nth'] >= len(loops):
+                raise Undecided('ghost loop anchor lost in %s: loop %d' % (key, g['nth']))
+            bo = loops[g['nth']][1]
+            if g['where'] == 'loop-start':
+                text = text[:bo + 1] + '\n' + g['text'] + '\n' + text[bo + 1:]
+            else:
+                cl = match_close(text, mask, bo)
+                text = text[:cl] + '\n' + g['text'] + '\n' + text[cl:]
+            continue
         rx = ws_regex(g['anchor'])
         ms = list(re.finditer(rx, text, re.S))
         if len(ms) <= g['nth']:
